@@ -1,30 +1,11 @@
 (* Comparison of model/Rotate.v with the implementation's observations (property C19): the case records used by the
    generated case files, `mismatches` (model run vs observed run), `spec_violations` (the property's boolean oracle on
-   the observed logs and states alone), and the IEEE-754 model of int32(time.Duration.Seconds()).
-   Executable definitions only. Kept apart from Rotate.v so that the theorems do not load the float library. *)
+   the observed logs and states alone).  Executable definitions only. *)
 From Coq Require Import List ZArith Bool String Ascii.
-From Coq Require Import Floats Uint63.
 From Qryn Require Import model.Rotate.
 Import ListNotations.
 Open Scope string_scope.
 Open Scope Z_scope.
-
-(* time.Duration.Seconds(): sec := d / Second; nsec := d % Second; float64(sec) + float64(nsec)/1e9, then the
-   truncation of int32(.) for a value in range.  IEEE binary64 through Coq's primitive floats. *)
-Definition f_of_Z (z : Z) : float := PrimFloat.of_uint63 (Uint63.of_Z z).
-Definition trunc_float (f : float) : Z :=
-  match Prim2SF f with
-  | S754_finite _ m e => if 0 <=? e then Z.pos m * 2 ^ e else Z.pos m / 2 ^ (- e)
-  | _ => 0
-  end.
-Definition seconds_trunc (ns : Z) : Z :=
-  let a := Z.abs ns in
-  let f := (f_of_Z (a / 1000000000) + f_of_Z (a mod 1000000000) / 1000000000)%float in
-  Z.sgn ns * trunc_float f.
-Definition int32_ok (z : Z) : bool := (-2147483648 <=? z) && (z <=? 2147483647).
-Definition conv_ok (p : policy) : bool :=
-  let s := seconds_trunc (p_ns p) in
-  if int32_ok s then p_conv p =? s else int32_ok (p_conv p).
 
 (* ------------------------------------------------------------------ comparison with the implementation *)
 Definition oarg_eqb (a b : oarg) : bool :=
@@ -74,7 +55,7 @@ Definition state_eqb (d : db) (r : orun) : bool :=
 Definition run_matches (d : db) (r : orun) : bool * db :=
   let '(w, ok) := run (r_cfg r) (r_fault r) d in
   (list_eqb ocall_eqb (map (render (r_cfg r)) (rev (w_log w))) (r_log r) &&
-   Bool.eqb (negb ok) (r_err r) && state_eqb (w_db w) r && forallb conv_ok (days (r_cfg r)),
+   Bool.eqb (negb ok) (r_err r) && state_eqb (w_db w) r,
    w_db w).
 
 Fixpoint runs_match (d : db) (rs : list orun) : bool :=
@@ -159,6 +140,24 @@ Definition tier_min_obs (o : ocall) : bool :=
   | None => true
   end.
 
+(* (1b) the tiers follow the configuration: the statement has one toIntervalSecond per configured tier, in order, and
+   the n of a tier is never earlier than the configured whole seconds (up to the int32 cap) and never later than
+   max(table minimum, configured): stated on the observed text and the configuration alone, so that an implementation
+   printing 64-bit seconds would be accepted as well *)
+Fixpoint tiers_follow (minv : Z) (ds : list policy) (ns : list Z) : bool :=
+  match ds, ns with
+  | [], [] => true
+  | p :: ds', n :: ns' =>
+    let s := whole_seconds (p_ns p) in
+    (Z.min s max_int32 <=? n) && (n <=? Z.max minv s) && tiers_follow minv ds' ns'
+  | _, _ => false
+  end.
+Definition tier_cfg_obs (cfg : config) (o : ocall) : bool :=
+  match obs_ttl o with
+  | Some (tn, e) => tiers_follow (name_min tn) (days cfg) (intervals e)
+  | None => true
+  end.
+
 (* (2) a value is recorded only after every table of the group was successfully altered to it (same run) *)
 Definition altered_to (g : group) (v : string) (earlier : list ocall) (t : table) : bool :=
   existsb (fun o => o_ok o &&
@@ -183,7 +182,7 @@ Fixpoint record_after_all_obs (earlier : list ocall) (l : list ocall) : bool :=
 (* (3) a run that returned no error leaves the configured TTL / policy on every table (when the history started from
    a consistent database); that the records are right shows in (4): the run after such a run with the same
    configuration issues no Exec.  Neither depends on the names the implementation records under. *)
-Definition policy_eqb (a b : policy) : bool := (p_ns a =? p_ns b) && String.eqb (p_disk a) (p_disk b) && (p_conv a =? p_conv b).
+Definition policy_eqb (a b : policy) : bool := (p_ns a =? p_ns b) && String.eqb (p_disk a) (p_disk b).
 Definition config_eqb (a b : config) : bool :=
   String.eqb (cluster a) (cluster b) && Bool.eqb (distributed a) (distributed b) &&
   list_eqb policy_eqb (days a) (days b) && (drop_days a =? drop_days b) &&
@@ -194,6 +193,7 @@ Fixpoint runs_ok (start_consistent : bool) (prev_done : option config) (rs : lis
   | [] => true
   | r :: rest =>
     forallb tier_min_obs (r_log r) &&
+    forallb (tier_cfg_obs (r_cfg r)) (r_log r) &&
     record_after_all_obs [] (r_log r) &&
     (r_err r || negb start_consistent || applied_b (r_cfg r) (obs_db r)) &&
     match prev_done with
